@@ -152,10 +152,14 @@ def run_histories(ck, alphabet, depth, count, rng, precs=("d",), threads=(1, 2, 
         i, h, prec, txt = a
         st, op, err = api.run_script(txt, wd, "h%d" % i, prec=prec, variant=variant)
         v = api.validate_calls(wd, "h%d" % i, op) if st == "exit:0" else None
+        if v is not None and tlc.inconclusive(v):
+            v = api.validate_calls(wd, "h%dt" % i, op, timeout=600)       # the tool did not decide (load): once more, longer limit
         pv = []
         if validate_pipe and st == "exit:0":
             for k, f in enumerate(api.split_factorizations(op)):
                 pr = tlc.pipe_trace(wd, "h%d_%d" % (i, k), f)
+                if tlc.inconclusive(pr):
+                    pr = tlc.pipe_trace(wd, "h%d_%dt" % (i, k), f, timeout=900)
                 pv.append((f, pr))
         return i, h, prec, txt, st, v, err, pv
     for i, h, prec, txt, st, v, err, pv in common.pmap(one, items):
@@ -165,7 +169,9 @@ def run_histories(ck, alphabet, depth, count, rng, precs=("d",), threads=(1, 2, 
             ck.violation(key, "history did not run to completion (%s): %s | stderr: %s" % (st, json.dumps(h), err[-300:]),
                          {"script": txt, "precision": prec})
             continue
-        if not v["ok"]:
+        if tlc.inconclusive(v):
+            ck.notes["histories_not_decided_by_TLC_within_the_time_limit"] = ck.notes.get("histories_not_decided_by_TLC_within_the_time_limit", 0) + 1
+        elif not v["ok"]:
             rl = v["rejected_line"]
             clauses = api.diagnose(v["recs"][rl - 1]) if rl and rl <= len(v["recs"]) else []
             mine = [c for c in clauses if ck.pid in CLAUSE_PROPS.get(c, {ck.pid})]
@@ -184,6 +190,9 @@ def run_histories(ck, alphabet, depth, count, rng, precs=("d",), threads=(1, 2, 
                 if msg:
                     ck.violation(key, msg, {"script": txt, "precision": prec})
         for f, pr in pv:
+            if tlc.inconclusive(pr):
+                ck.notes["traces_not_decided_by_TLC_within_the_time_limit"] = ck.notes.get("traces_not_decided_by_TLC_within_the_time_limit", 0) + 1
+                continue
             if pr["ok"]:
                 ck.traces()
                 ck.notes["factorization_traces_validated"] = ck.notes.get("factorization_traces_validated", 0) + 1
